@@ -25,7 +25,15 @@ MANIFEST = {
             'mpc.input from varying senders, values concentrated at the range extremes, intermediate values within l bits) '
             'run in the multi-party simulator for (m,t) in {(1,0),(2,0),(3,1),(4,1),(5,2)} x PRSS on/off (thorough adds '
             '(7,3)), l in {8,16,32,64}; every node is opened and compared with Python int arithmetic on every receiving '
-            'party, and all receiving parties must agree.',
+            'party, and all receiving parties must agree. The quick tier adds PRSS configurations with many subsets '
+            '((7,3): 35, (6,2): 15) on a reduced budget of masked-opening operations. The tape-range hypotheses of the '
+            'theorems are tied to the code: the divisor d, the rounded per-contribution bound and the number of dealers are '
+            'extracted from the source of runtime._randoms on every run (fail closed) and the obligation "contributions * '
+            '(per-contribution bound - 1) < bound" is compiled by vm_compute for all (m,t) with m <= 8, PRSS and no-PRSS. '
+            'Aliasing stream: every list-taking operation (sum, prod, all, any, in_prod, matrix_prod, min, max, min_max, '
+            'if_else/if_swap on lists, scalar_mul, schur_prod, vector_add/sub) is called, the caller\'s list is then '
+            'reversed / overwritten / shortened / extended before the result is awaited (m = 1 asynchronous and m = 3); '
+            'expected are the values at call time.',
     'note': 'Share-level layer (Shamir sharing, reshare, output recombination, PRSS) is proved elsewhere (C11-C15) and here '
             'covered only by the simulator runs. Correspondence model<->code for the masked protocols: the Coq models are '
             'evaluated by vm_compute on the operands that occurred in the runs (plus boundary operands up to +-2^l) under '
@@ -39,7 +47,10 @@ MANIFEST = {
             '(BY_bound l assumed for l > 9: Bernstein-Yang Theorem 11.2 not re-proved; range of inverse proved for l <= 7). '
             'Probabilistic steps are exact only outside explicit bad tapes: is_zero_public r = 0, and _mod when the masked '
             'opening wraps (only possible for r_divb = 0, probability < 2^-k). Operator-to-method mapping of '
-            'sectypes.SecureNumber is covered by the runs only.',
+            'sectypes.SecureNumber is covered by the runs only. The number of PRSS contributions comb(m,t) is a model of '
+            'thresha.pseudorandom_share (C15), not extracted. Observed outside C01: mpc.trunc(list) keeps no copy of a list '
+            'argument, so editing the list before awaiting the result changes it (trunc is not a C01 operation; not in the '
+            'aliasing stream).',
     'technique': 'Coq proofs of masked-opening integer lemmas + multi-party simulator differential testing against Python ints',
 }
 
